@@ -285,27 +285,35 @@ def translate_codec():
 
 
 def translate_npz():
-    """npz key scheme of Mesh.save_npz / Mesh.load_npz"""
+    """npz key scheme of Mesh.save_npz / Mesh.load_npz (boundaries b_, subdomains s_, orientation flags o_)"""
     tree = t2.parse(MESH)
     sv = _strip_doc(t2.find_def(tree, 'save_npz', 'Mesh').body)
     ld = _strip_doc(t2.find_def(tree, 'load_npz', 'Mesh').body)
     want = ['boundaries = {} if self.boundaries is None else self.boundaries',
             'subdomains = {} if self.subdomains is None else self.subdomains']
-    if [t2.src(s) for s in sv[:2]] != want or len(sv) != 5:
+    if [t2.src(s) for s in sv[:2]] != want or len(sv) != 6:
         raise TranslateError('save_npz: statements')
-    pre = {}
-    for st, coll in zip(sv[2:4], ('boundaries', 'subdomains')):
+
+    def prefix_comp(st, target, coll, value, cond):
+        """<target> = {'<pre>' + key: <value> for key, value in <coll>.items() [if <cond>]} -> pre"""
         v = st.value
-        if not (isinstance(st, ast.Assign) and t2.src(st.targets[0]) == coll and isinstance(v, ast.DictComp)
-                and t2.src(v.value) == 'value' and t2.src(v.generators[0].target) == '(key, value)'
-                and t2.src(v.generators[0].iter) == f'{coll}.items()' and not v.generators[0].ifs
+        if not (isinstance(st, ast.Assign) and t2.src(st.targets[0]) == target and isinstance(v, ast.DictComp)
+                and t2.src(v.value) == value and t2.src(v.generators[0].target) == '(key, value)'
+                and t2.src(v.generators[0].iter) == f'{coll}.items()'
+                and [t2.src(c) for c in v.generators[0].ifs] == ([cond] if cond else [])
                 and isinstance(v.key, ast.BinOp) and isinstance(v.key.op, ast.Add)
                 and isinstance(v.key.left, ast.Constant) and isinstance(v.key.left.value, str)
                 and t2.src(v.key.right) == 'key'):
             raise TranslateError('save_npz: ' + t2.src(st))
-        pre[coll] = v.key.left.value
-    if t2.src(sv[4]) != 'np.savez(filename, doflocs=self.doflocs, t=self.t, **boundaries, **subdomains)':
-        raise TranslateError('save_npz: savez call ' + t2.src(sv[4]))
+        return v.key.left.value
+    # the orientation flags are collected BEFORE the boundary dictionary is re-keyed
+    pre = {'orientations': prefix_comp(sv[2], 'orientations', 'boundaries', 'value.ori',
+                                       'isinstance(value, OrientedBoundary)'),
+           'boundaries': prefix_comp(sv[3], 'boundaries', 'boundaries', 'value', None),
+           'subdomains': prefix_comp(sv[4], 'subdomains', 'subdomains', 'value', None)}
+    if t2.src(sv[5]) != ('np.savez(filename, doflocs=self.doflocs, t=self.t, **boundaries, **subdomains, '
+                         '**orientations)'):
+        raise TranslateError('save_npz: savez call ' + t2.src(sv[5]))
     if len(ld) != 2 or t2.src(ld[0]) != 'data = np.load(filename)' or not isinstance(ld[1], ast.Return):
         raise TranslateError('load_npz: statements')
     call = ld[1].value
@@ -316,7 +324,7 @@ def translate_npz():
     lpre = {}
     for k in call.keywords:
         v = k.value
-        if not (isinstance(v, ast.DictComp) and t2.src(v.key) == 'key[2:]' and t2.src(v.value) == 'data[key]'
+        if not (isinstance(v, ast.DictComp) and t2.src(v.key) == 'key[2:]'
                 and t2.src(v.generators[0].iter) == 'data.files' and t2.src(v.generators[0].target) == 'key'
                 and len(v.generators[0].ifs) == 1):
             raise TranslateError('load_npz: ' + t2.src(v))
@@ -325,13 +333,30 @@ def translate_npz():
                 and isinstance(c.comparators[0], ast.Constant) and isinstance(c.comparators[0].value, str)):
             raise TranslateError('load_npz: filter ' + t2.src(c))
         lpre[k.arg] = c.comparators[0].value
+        if k.arg == '_subdomains':
+            if t2.src(v.value) != 'data[key]':
+                raise TranslateError('load_npz: subdomain value ' + t2.src(v.value))
+        else:
+            # OrientedBoundary(data[key], data['<o>' + key[2:]]) if '<o>' + key[2:] in data.files else data[key]
+            e = v.value
+            if not (isinstance(e, ast.IfExp) and t2.src(e.orelse) == 'data[key]' and isinstance(e.test, ast.Compare)
+                    and isinstance(e.test.ops[0], ast.In) and t2.src(e.test.comparators[0]) == 'data.files'
+                    and isinstance(e.test.left, ast.BinOp) and isinstance(e.test.left.left, ast.Constant)
+                    and t2.src(e.test.left.right) == 'key[2:]'):
+                raise TranslateError('load_npz: boundary value ' + t2.src(e))
+            o = e.test.left.left.value
+            if t2.src(e.body) != f"OrientedBoundary(data[key], data[{o!r} + key[2:]])":
+                raise TranslateError('load_npz: oriented value ' + t2.src(e.body))
+            lpre['_orientations'] = o
     for s in list(pre.values()) + list(lpre.values()):
-        if len(s) != 2 or not s.isascii() or '"' in s:
+        if not isinstance(s, str) or len(s) != 2 or not s.isascii() or '"' in s:
             raise TranslateError(f'npz prefix {s!r}')
     return (f'Definition gen_npz_save_b : String.string := "{pre["boundaries"]}"%string.\n'
             f'Definition gen_npz_save_s : String.string := "{pre["subdomains"]}"%string.\n'
+            f'Definition gen_npz_save_o : String.string := "{pre["orientations"]}"%string.\n'
             f'Definition gen_npz_load_b : String.string := "{lpre["_boundaries"]}"%string.\n'
             f'Definition gen_npz_load_s : String.string := "{lpre["_subdomains"]}"%string.\n'
+            f'Definition gen_npz_load_o : String.string := "{lpre["_orientations"]}"%string.\n'
             'Definition gen_npz_fixed_keys : list String.string := ["doflocs"%string; "t"%string].')
 
 
